@@ -148,6 +148,12 @@ void prop_gen(Ctx &c) {
 					long v1 = strtol(q, &on, 10); if (*on == 'B' || *on == 'b') b = (int)v1; else { d = (int)v1; if (*on == ',') b = (int)strtol(on + 1, &on, 10); }
 					if (std::abs(d) + std::abs(b) * 7 / 5 > 27) kc = "monthly_large_shift";
 				}
+				if (c.excl("shift_two_years") && sp != std::string::npos) {
+					int d = 0, b = 0; const char *q = r.extra.c_str() + sp + 6; char *on;
+					long v1 = strtol(q, &on, 10); if (*on == 'B' || *on == 'b') b = (int)v1; else { d = (int)v1; if (*on == ',') b = (int)strtol(on + 1, &on, 10); }
+					if (std::abs(d) + std::abs(b) * 7 / 5 + 4 >= 365) kc = "shift_two_years";
+				}
+				if (c.excl("scale_byeaster") && scale && r.text().find("BYEASTER=") != std::string::npos) kc = "scale_byeaster";
 				if (c.excl("shift_bday_collision") && sp != std::string::npos && r.extra.find('B', sp) != std::string::npos) kc = "shift_bday_collision";
 				rref::Result dummy; std::string k1 = c01known::match(c, r, e.start, e.date_only, dummy);
 				if (k1 == "yearly_byweekno_edge") kc = k1;
